@@ -280,9 +280,9 @@ def rUnionKw : Nat → String
 /-- `prepare_frame` -/
 def rBound : Bound → Pieces
   | .unboundedPreceding => [S "UNBOUNDED PRECEDING"]
-  | .preceding n => [.p ⟨"Unsigned", .int n⟩, S "PRECEDING"]
+  | .preceding n => [.p ⟨"Unsigned", .int n⟩, S " PRECEDING"]
   | .currentRow => [S "CURRENT ROW"]
-  | .following n => [.p ⟨"Unsigned", .int n⟩, S "FOLLOWING"]
+  | .following n => [.p ⟨"Unsigned", .int n⟩, S " FOLLOWING"]
   | .unboundedFollowing => [S "UNBOUNDED FOLLOWING"]
 
 def rFrame (f : Frame) : Pieces :=
